@@ -101,6 +101,47 @@ theorem hist_cons_repaired {db : Db} (h : Hist Variant.repaired db) : fkOk db = 
 theorem hist_cons_proposed {db : Db} (h : Hist Variant.proposed db) : fkOk db = true ∧ taskComplete db = true :=
   hist_cons Variant.proposed rfl h
 
+/-! ### an operation that has returned leaves nothing pending -/
+
+/-- **Every recording operation ends with its commit**: started on a session with nothing pending, it returns a
+session with nothing pending (any variant).  So the rows of an operation that has returned are durable. -/
+theorem returned_op_leaves_nothing_pending (v : Variant) (s : Sess) (hp : s.pend = []) :
+    (∀ x, (recordValue v x s).pend = []) ∧
+    (∀ e val, (setEvalCache v e val s).pend = []) ∧
+    (∀ j root s', recordJobStart v j root s = .ok s' → s'.pend = []) ∧
+    (∀ id call cached, (recordJobEnd id call cached s).pend = []) ∧
+    (∀ a, (recordCallNode v a s).pend = []) ∧
+    (∀ tags, (recordTags true tags s).pend = []) ∧
+    (∀ rs, (putRecords rs s).pend = []) :=
+  ⟨fun x => (recordValue_graph v x s).2.2 hp,
+   fun e val => (setEvalCache_graph v e val s).2.2 hp,
+   fun j root s' h => (recordJobStart_graph v j root s s' h).2.2,
+   fun id call cached => (recordJobEnd_graph id call cached s).2.2,
+   fun a => (recordCallNode_shapes v a s hp).1,
+   fun tags => by simp [recordTags],
+   fun rs => (putRecords_graph rs s hp).choose_spec.choose_spec.2.2.2.2.2.1⟩
+
+/-- ... hence the `session.rollback()` of a LATER operation's `db_retry` cannot touch them: rolling back a session
+with nothing pending changes nothing, and the state the retry starts from (`retryState` at its first commit) has
+exactly the durable tables the operation started with. -/
+theorem retry_rollback_keeps_returned_rows (s s' : Sess) (hp : s.pend = []) :
+    s.rollback = s ∧ (retryState s s' 0).db = s.db := by
+  constructor
+  · cases s; simp_all [Sess.rollback]
+  · rfl
+
+/-- the seeded design (tags left pending for `record_job_end`'s commit): one transient failure of that commit
+loses the tags of an operation that had already returned -/
+theorem pending_tags_lost_on_retry :
+    let s0 : Sess := .ofDb { jobs := [⟨1, 7, none, 2, none, false, false⟩] }
+    let sp := recordTags false [⟨50, 1, 1, 60, 61, true⟩] s0          -- record_tags(commit=False) has returned
+    (recordJobEnd 1 none false sp).db.tags.length = 1 ∧               -- no fault: the job end commits the tag too
+    (recordJobEnd 1 none false (retryState sp (recordJobEnd 1 none false sp) 0)).db.tags.length = 0 ∧
+    -- the real code (commit = true): the same fault loses nothing
+    (recordJobEnd 1 none false (retryState (recordTags true [⟨50, 1, 1, 60, 61, true⟩] s0)
+      (recordJobEnd 1 none false (recordTags true [⟨50, 1, 1, 60, 61, true⟩] s0)) 0)).db.tags.length = 1 := by
+  decide
+
 /-! ### closed witnesses on the CURRENT code -/
 
 def okDb : Except Err Sess → Option Db
